@@ -84,6 +84,9 @@ func (item ShapeWrapper) MarshalJSON() ([]byte, error) {
 
 `
 
+// ModuleRootSrc is the package at the module root (import path verif.test/proj exactly).
+const ModuleRootSrc = "package proj\n\ntype Level int\n\nconst (\n\tLow Level = iota + 1 // low level\n\tMid\n\tHigh\n)\n"
+
 func slotAlts() []slotAlt {
 	l := []slotAlt{
 		{label: "int", typ: "int"},
@@ -176,6 +179,8 @@ func slotAlts() []slotAlt {
 		{label: "sub2.Delivery", typ: "sub2.Delivery", local: true},
 		{label: "[]sub2.Delivery", typ: "[]sub2.Delivery", local: true},
 		{label: "sub2.Route", typ: "sub2.Route", local: true},
+		{label: "pointer-to-later-union-holder", typ: "*Payload", declB: "type Payload struct {\n\tContent Shape\n\tNote    string\n}\n", local: true},
+		{label: "proj.Level", typ: "proj.Level", local: true},
 		// other packages
 		{label: "subpkg.Info", typ: "subpkg.Info"},
 		{label: "subpkg.Kind", typ: "subpkg.Kind"},
@@ -197,6 +202,8 @@ func slotAlts() []slotAlt {
 		{label: "self-pointer", typ: "P", declA: "type P *P\n", local: true},
 		{label: "named-pointer", typ: "PC", declA: "type PC *Circle\n", local: true},
 		{label: "uintptr", typ: "uintptr"},
+		{label: "rec-array-pointer", typ: "Quad", declA: "type Quad [4]*Quad\n", local: true},
+		{label: "rec-array-mutual", typ: "ArrA", declA: "type ArrA [2]*ArrB\n\ntype ArrB [3]*ArrA\n", local: true},
 	}
 	return l
 }
@@ -215,6 +222,7 @@ var slotTags = []string{
 	"`gomacro-opaque:\"typescript\"`",
 	"`gomacro-opaque:\"dart,typescript\"`",
 	"`gomacro-data:\"ignore\"`",
+	"`json:\"2fa\"`",
 	"`json:\"slot_x\" gomacro:\"ignore\"`",
 	"`gomacro:\"ignore\" json:\",omitempty\"`",
 }
@@ -260,7 +268,7 @@ func TypesWith(c explore.Chooser, opt TypesOpt) *prog.Program {
 		var k []slotAlt
 		for _, a := range alts {
 			switch a.label {
-			case "*int", "*Circle", "chan int", "func()", "anon-struct", "any", "error", "fmt.Stringer", "[]Shape", "map[string]Shape", "self-pointer", "named-pointer", "uintptr", "complex128":
+			case "*int", "*Circle", "chan int", "func()", "anon-struct", "any", "error", "fmt.Stringer", "[]Shape", "map[string]Shape", "self-pointer", "named-pointer", "uintptr", "complex128", "rec-array-pointer", "rec-array-mutual":
 				continue
 			}
 			k = append(k, a)
@@ -280,9 +288,10 @@ func TypesWith(c explore.Chooser, opt TypesOpt) *prog.Program {
 		hosts = []string{"struct", "union-member", "nested-struct"}
 	}
 	host := s.Pick("slot.host", hosts...)
+	slotFirst := s.Pick("slot.position", "last", "first") == "first"
 	neighbourTag := s.Pick("union.neighbour-tag", "", "`json:\"name\"`", "`json:\"-\"`", "`json:\"n,omitempty\"`")
 	unionFieldTag := s.Pick("union.field-tag", "", "`json:\"-\"`", "`json:\"sh\"`", "`json:\"sh,omitempty\"`", "`gomacro:\"ignore\"`")
-	embedded := s.Pick("embedded", "none", "exported", "unexported", "tagged", "from-sub", "non-struct", "tagged-same-name", "tagged-omitempty", "unexported-in-member", "pointer")
+	embedded := s.Pick("embedded", "none", "exported", "unexported", "tagged", "from-sub", "non-struct", "tagged-same-name", "tagged-omitempty", "unexported-in-member", "pointer", "shared-first-3")
 	reexport := s.Pick("root-const-of-sub-enum", "no", "yes")
 	style := s.Pick("decl.style", "separate", "grouped", "same-line")
 	dartRoot := s.Pick("dart.root", "under-go-src", "outside-go-src")
@@ -297,7 +306,11 @@ func TypesWith(c explore.Chooser, opt TypesOpt) *prog.Program {
 	if host == "sub-struct" && !slotAbsent {
 		subSlot = fmt.Sprintf("\t%s %s %s\n", slotName, strings.ReplaceAll(slot.typ, "subpkg.", ""), slotTag)
 	}
-	fmt.Fprintf(&sub, "type Info struct {\n\tLabel string\n\tKind  Kind\n%s}\n\n", subSlot)
+	if slotFirst {
+		fmt.Fprintf(&sub, "type Info struct {\n%s\tLabel string\n\tKind  Kind\n}\n\n", subSlot)
+	} else {
+		fmt.Fprintf(&sub, "type Info struct {\n\tLabel string\n\tKind  Kind\n%s}\n\n", subSlot)
+	}
 	if second == "same-name-in-sub" {
 		sub.WriteString(subShapeWrapper)
 		sub.WriteString("type Shape interface {\n\tisShape()\n}\n\ntype Dot struct {\n\tX int\n}\n\nfunc (Dot) isShape() {}\n\ntype Line struct {\n\tLen int\n}\n\nfunc (Line) isShape() {}\n\n")
@@ -350,7 +363,11 @@ func TypesWith(c explore.Chooser, opt TypesOpt) *prog.Program {
 	if host == "union-member" && !slotAbsent {
 		circleSlot = fmt.Sprintf("\t%s %s %s\n", slotName, slot.typ, slotTag)
 	}
-	add(fmt.Sprintf("type Circle struct {\n\tRadius int\n%s}", circleSlot))
+	if slotFirst {
+		add(fmt.Sprintf("type Circle struct {\n%s\tRadius int\n}", circleSlot))
+	} else {
+		add(fmt.Sprintf("type Circle struct {\n\tRadius int\n%s}", circleSlot))
+	}
 	methods = append(methods, "func (Circle) isShape() {}")
 	squareEmb := ""
 	if embedded == "unexported-in-member" {
@@ -449,6 +466,12 @@ func TypesWith(c explore.Chooser, opt TypesOpt) *prog.Program {
 	case "pointer":
 		add("type Base struct {\n\tCreated int\n\tOwner   string\n}")
 		embField = "\t*Base\n"
+	case "shared-first-3":
+		// a struct with three fields embedded first by two structs that each add one field
+		add("type Base3 struct {\n\tA1 int\n\tA2 string\n\tA3 bool\n}")
+		add("type Invoice struct {\n\tBase3\n\tTotal int\n}")
+		add("type Customer struct {\n\tBase3\n\tEmail string\n}")
+		embField = "\tInv   Invoice\n\tCust  Customer\n"
 	case "from-sub":
 		embField = "\tsubpkg.Base\n"
 	case "non-struct":
@@ -472,11 +495,19 @@ func TypesWith(c explore.Chooser, opt TypesOpt) *prog.Program {
 		if slotAbsent {
 			add("type Inner struct {\n\tDepth int\n}")
 		} else {
-			add(fmt.Sprintf("type Inner struct {\n\tDepth int\n\t%s %s %s\n}", slotName, slot.typ, slotTag))
+			if slotFirst {
+				add(fmt.Sprintf("type Inner struct {\n\t%s %s %s\n\tDepth int\n}", slotName, slot.typ, slotTag))
+			} else {
+				add(fmt.Sprintf("type Inner struct {\n\tDepth int\n\t%s %s %s\n}", slotName, slot.typ, slotTag))
+			}
 		}
 		itemSlot = "\tIn    Inner\n\tIns   []Inner\n"
 	}
-	item := "type Item struct {\n" + embField +
+	itemSlotFirst := ""
+	if slotFirst && host == "struct" {
+		itemSlotFirst, itemSlot = itemSlot, ""
+	}
+	item := "type Item struct {\n" + itemSlotFirst + embField +
 		"\tName  string " + neighbourTag + "\n" +
 		"\tSh    Shape " + unionFieldTag + "\n" +
 		"\tN     int\n" +
@@ -545,6 +576,9 @@ func TypesWith(c explore.Chooser, opt TypesOpt) *prog.Program {
 		if !isSub && regexp.MustCompile(`\b`+subName+`\.`).MatchString(body) {
 			imps = append(imps, fmt.Sprintf("\t%q", subPath))
 		}
+		if !isSub && strings.Contains(body, "proj.") {
+			imps = append(imps, fmt.Sprintf("\t%q", prog.Module))
+		}
 		if !isSub && strings.Contains(body, "sub2.") {
 			imps = append(imps, fmt.Sprintf("\t%q", rootPath+"/sub2"))
 		}
@@ -566,6 +600,10 @@ func TypesWith(c explore.Chooser, opt TypesOpt) *prog.Program {
 		// a third package importing the second one (diamond: root -> sub2 -> subpkg <- root)
 		src := "package sub2\n\nimport \"" + subPath + "\"\n\ntype Delivery struct {\n\tTo   " + subName + ".Info\n\tKind " + subName + ".Kind\n}\n\ntype Route struct {\n\tStops []Delivery\n\tIDs   []" + subName + ".Ident\n}\n"
 		p.Pkgs = append(p.Pkgs, &prog.Pkg{Path: rootPath + "/sub2", Name: "sub2", Files: []prog.File{{Name: "sub2.go", Src: src}}})
+	}
+	if strings.Contains(slot.typ, "proj.") {
+		// the package whose import path is the two-element prefix of the tree (the module root)
+		p.Pkgs = append(p.Pkgs, &prog.Pkg{Path: prog.Module, Name: "proj", Files: []prog.File{{Name: "level.go", Src: ModuleRootSrc}}})
 	}
 	root := &prog.Pkg{Path: rootPath, Name: rootName, Files: []prog.File{
 		{Name: "a.go", Src: finish(rootName, a.String(), false)},
